@@ -30,7 +30,7 @@ Section ReconnectProofs.
      within max_attempts, and the policy gives a delay *)
   Definition sleeps_after (c : cfg) (a : nat) (o : outcome) (d : Z) (e : Err) : Prop :=
     o = Fail e /\ should_reconnect c e = true /\ exceeded c (S a) = false /\
-    policy c (S a) = Some d.
+    delay_at c (S a) = Some d.
 
   Lemma after_retry (c : cfg) a (o : outcome) ws d e :
     after_outcome c a o = (ws, ARetry d e) ->
@@ -39,8 +39,60 @@ Section ReconnectProofs.
     unfold after_outcome, sleeps_after. destruct o as [v|e0]; [discriminate|].
     destruct (should_reconnect c e0) eqn:Es; cbn [negb]; [|discriminate].
     destruct (exceeded c (S a)) eqn:Ex; [discriminate|].
-    destruct (policy c (S a)) as [d0|] eqn:Ep; [|discriminate].
+    destruct (delay_at c (S a)) as [d0|] eqn:Ep; [|discriminate].
     intros H. inversion H; subst. repeat split; assumption.
+  Qed.
+
+  (* ---- the attempt counter: a u32 that saturates; a count that no longer fits exceeds
+     every max_attempts ---- *)
+  Lemma exceeded_false_le (c : cfg) a m :
+    exceeded c a = false -> max_attempts c = Some m -> (a <= m)%nat.
+  Proof.
+    unfold exceeded. intros H Hm. rewrite Hm in H.
+    destruct (Z.of_nat a <=? U32MAX); [|discriminate]. apply Nat.ltb_ge in H. exact H.
+  Qed.
+
+  Lemma exceeded_of_lt (c : cfg) a m :
+    max_attempts c = Some m -> (m < a)%nat -> exceeded c a = true.
+  Proof.
+    unfold exceeded. intros Hm Hlt. rewrite Hm.
+    destruct (Z.of_nat a <=? U32MAX); [|reflexivity]. apply Nat.ltb_lt. exact Hlt.
+  Qed.
+
+  (* for a max_attempts that is a u32 — every value the builder accepts — the test is the
+     mathematical one, for every count, also beyond 2^32 *)
+  Lemma exceeded_u32 (c : cfg) a m :
+    max_attempts c = Some m -> Z.of_nat m <= U32MAX -> exceeded c a = (m <? a)%nat.
+  Proof.
+    unfold exceeded. intros Hm Hle. rewrite Hm.
+    destruct (Z.of_nat a <=? U32MAX) eqn:E; [reflexivity|].
+    apply Z.leb_gt in E. symmetry. apply Nat.ltb_lt. lia.
+  Qed.
+
+  Lemma exceeded_overflow (c : cfg) a m :
+    max_attempts c = Some m -> U32MAX < Z.of_nat a -> exceeded c a = true.
+  Proof.
+    unfold exceeded. intros Hm Hlt. rewrite Hm.
+    replace (Z.of_nat a <=? U32MAX) with false by (symmetry; apply Z.leb_gt; exact Hlt). reflexivity.
+  Qed.
+
+  Lemma exceeded_unlimited (c : cfg) a : max_attempts c = None -> exceeded c a = false.
+  Proof. unfold exceeded. intros ->. reflexivity. Qed.
+
+  Lemma sat32_small a : Z.of_nat a <= U32MAX -> sat32 a = a.
+  Proof. unfold sat32. intros H. replace (Z.of_nat a <=? U32MAX) with true by (symmetry; apply Z.leb_le; exact H). reflexivity. Qed.
+
+  (* the step from a saturated counter: after u32::MAX counted failures, the next connection
+     failure ends the request with MaxAttemptsExceeded whatever finite maximum is configured *)
+  Lemma overflow_step (c : cfg) a (e : Err) m :
+    max_attempts c = Some m -> should_reconnect c e = true -> U32MAX <= Z.of_nat a ->
+    after_outcome (Res:=Res) c a (Fail e) =
+    ([Disconnected], AReturn (inr (MaxAttemptsExceeded (Z.to_nat U32MAX) e))).
+  Proof.
+    intros Hm Hs Ha. unfold after_outcome. rewrite Hs. cbn [negb].
+    rewrite (exceeded_overflow c (S a) m Hm) by lia.
+    unfold sat32. replace (Z.of_nat (S a) <=? U32MAX) with false by (symmetry; apply Z.leb_gt; lia).
+    reflexivity.
   Qed.
 
   Definition returns_spec (c : cfg) (a : nat) (o : outcome) (x : Res + rerr) : Prop :=
@@ -48,10 +100,9 @@ Section ReconnectProofs.
     | inl v => o = Ok v
     | inr (ServiceError e) => o = Fail e /\ should_reconnect c e = false
     | inr (MaxAttemptsExceeded n e) =>
-      o = Fail e /\ should_reconnect c e = true /\ n = S a /\
-      exists m, max_attempts c = Some m /\ (m < S a)%nat
+      o = Fail e /\ should_reconnect c e = true /\ n = sat32 (S a) /\ exceeded c (S a) = true
     | inr (ConnectionFailed e) =>
-      o = Fail e /\ should_reconnect c e = true /\ exceeded c (S a) = false /\ policy c (S a) = None
+      o = Fail e /\ should_reconnect c e = true /\ exceeded c (S a) = false /\ delay_at c (S a) = None
     | inr (ConnectionFailedNoRetry _) => False
     end.
 
@@ -69,10 +120,8 @@ Section ReconnectProofs.
     - destruct (should_reconnect c e) eqn:Es; cbn [negb].
       + destruct (exceeded c (S a)) eqn:Ex.
         * intros H. inversion H; subst. split; [|reflexivity].
-          split; [reflexivity|]. split; [exact Es|]. split; [reflexivity|].
-          unfold exceeded in Ex. destruct (max_attempts c) as [m|]; [|discriminate].
-          exists m. split; [reflexivity|]. apply Nat.ltb_lt. exact Ex.
-        * destruct (policy c (S a)) as [d|] eqn:Ep; intros H; inversion H; subst.
+          split; [reflexivity|]. split; [exact Es|]. split; reflexivity.
+        * destruct (delay_at c (S a)) as [d|] eqn:Ep; intros H; inversion H; subst.
           split; [|reflexivity]. repeat split; assumption.
       + intros H. inversion H; subst. split; [|reflexivity]. split; [reflexivity|exact Es].
   Qed.
@@ -84,7 +133,7 @@ Section ReconnectProofs.
     | Ok _ => true
     | Fail e =>
       negb (should_reconnect c e) || exceeded c (S a) ||
-      (match policy c (S a) with Some _ => false | None => true end) ||
+      (match delay_at c (S a) with Some _ => false | None => true end) ||
       negb (retry_on_reconnect c) ||
       (match snd (ready (S a)) with Some _ => true | None => false end)
     end.
@@ -99,11 +148,11 @@ Section ReconnectProofs.
       (exists e0 d, sleeps_after c a (snd (inner a)) d e0 /\ retry_on_reconnect c = true /\
                     snd (ready (S a)) = Some e)
     | inr (MaxAttemptsExceeded n e) =>
-      snd (inner a) = Fail e /\ should_reconnect c e = true /\ n = S a /\
-      exists m, max_attempts c = Some m /\ (m < S a)%nat
+      snd (inner a) = Fail e /\ should_reconnect c e = true /\ n = sat32 (S a) /\
+      exceeded c (S a) = true
     | inr (ConnectionFailed e) =>
       snd (inner a) = Fail e /\ should_reconnect c e = true /\ exceeded c (S a) = false /\
-      policy c (S a) = None
+      delay_at c (S a) = None
     | inr (ConnectionFailedNoRetry e) =>
       (exists d, sleeps_after c a (snd (inner a)) d e) /\ retry_on_reconnect c = false
     end.
@@ -139,7 +188,7 @@ Section ReconnectProofs.
                                      c_end cl = c_start cl + Z.max 0 (fst (inner (c_idx cl)))) /\
       (exists cl rest, calls r = cl :: rest /\ c_start cl = t) /\
       (forall l1 c1 c2 l2, calls r = l1 ++ c1 :: c2 :: l2 ->
-         exists d, policy c (c_idx c2) = Some d /\
+         exists d, delay_at c (c_idx c2) = Some d /\
          c_start c2 = ceil_ms (c_end c1 + Z.max 0 d) + Z.max 0 (fst (ready (c_idx c2)))) /\
       (forall k, (a <= k < a + n - 1)%nat -> stopb k = false) /\
       (forall x, result r = Some x -> stopb (a + n - 1)%nat = true /\ last_spec (a + n - 1)%nat x) /\
@@ -185,10 +234,8 @@ Section ReconnectProofs.
     Proof.
       unfold stop_at, last_is, returns_spec. destruct x as [v|[n e|e|e|e]].
       - intros ->. split; reflexivity.
-      - intros [Ho [Hs [Hn [m [Hm Hlt]]]]]. rewrite Ho, Hs. unfold exceeded. rewrite Hm.
-        replace (m <? S a)%nat with true by (symmetry; apply Nat.ltb_lt; exact Hlt).
-        split; [reflexivity|]. split; [reflexivity|]. split; [reflexivity|]. split; [exact Hn|].
-        exists m. split; [reflexivity|exact Hlt].
+      - intros [Ho [Hs [Hn Hx]]]. rewrite Ho, Hs, Hx.
+        split; [reflexivity|]. split; [reflexivity|]. split; [reflexivity|]. split; [exact Hn|reflexivity].
       - intros [Ho [Hs [Hx Hp]]]. rewrite Ho, Hs, Hx, Hp. split; [reflexivity|].
         repeat split; reflexivity.
       - intros [].
@@ -265,8 +312,8 @@ Section ReconnectProofs.
             replace (a + S n - 1)%nat with (S a + n - 1)%nat by lia.
             split; [lia|].
             split.
-            { intros m Hm Ha. destruct Hsl as [_ [_ [Hx _]]]. unfold exceeded in Hx. rewrite Hm in Hx.
-              apply Nat.ltb_ge in Hx. specialize (Hmax m Hm Hx). lia. }
+            { intros m Hm Ha. destruct Hsl as [_ [_ [Hx _]]].
+              pose proof (exceeded_false_le c _ m Hx Hm) as Hx'. specialize (Hmax m Hm Hx'). lia. }
             split; [cbn [map seq c_idx]; f_equal; exact Hidx|].
             split; [intros cl [<-|H]; [split; reflexivity|apply Hout; exact H]|].
             split; [eexists; eexists; split; reflexivity|].
@@ -320,13 +367,13 @@ Section ReconnectProofs.
       cbn [Nat.add] in Hs.
       assert (Hk : (length (calls (R fuel t0)) - 1 = m)%nat) by lia.
       rewrite Hk in Hs. rewrite stop_at_exceeded in Hs; [discriminate|].
-      unfold exceeded. rewrite Hm. apply Nat.ltb_lt. lia.
+      apply (exceeded_of_lt c _ m Hm). lia.
     Qed.
 
     Lemma stop_at_false k :
       stopb k = false ->
       exists e d, snd (inner k) = Fail e /\ should_reconnect c e = true /\
-                  exceeded c (S k) = false /\ policy c (S k) = Some d /\
+                  exceeded c (S k) = false /\ delay_at c (S k) = Some d /\
                   retry_on_reconnect c = true /\ snd (ready (S k)) = None.
     Proof.
       unfold stop_at. destruct (snd (inner k)) as [v|e]; [discriminate|].
@@ -334,7 +381,7 @@ Section ReconnectProofs.
       apply Bool.orb_false_iff in H. destruct H as [H Hrt].
       apply Bool.orb_false_iff in H. destruct H as [H Hp].
       apply Bool.orb_false_iff in H. destruct H as [Hs Hx].
-      destruct (policy c (S k)) as [d|]; [|discriminate].
+      destruct (delay_at c (S k)) as [d|]; [|discriminate].
       exists e, d. split; [reflexivity|].
       split; [destruct (should_reconnect c e); [reflexivity|discriminate]|].
       split; [exact Hx|]. split; [reflexivity|].
@@ -350,7 +397,7 @@ Section ReconnectProofs.
       (forall cl, In cl (calls r) -> c_out cl = snd (inner (c_idx cl))) /\
       (forall k, (k < n - 1)%nat ->
          exists e d, snd (inner k) = Fail e /\ should_reconnect c e = true /\
-                     exceeded c (S k) = false /\ policy c (S k) = Some d /\
+                     exceeded c (S k) = false /\ delay_at c (S k) = Some d /\
                      retry_on_reconnect c = true /\ snd (ready (S k)) = None).
     Proof.
       cbn zeta. pose proof (run_spec fuel t0) as H. unfold run_props in H.
@@ -366,7 +413,7 @@ Section ReconnectProofs.
       (forall cl, In cl (calls r) -> c_end cl = c_start cl + Z.max 0 (fst (inner (c_idx cl)))) /\
       (forall l1 c1 c2 l2, calls r = l1 ++ c1 :: c2 :: l2 ->
          c_idx c2 = S (c_idx c1) /\
-         exists d, policy c (c_idx c2) = Some d /\
+         exists d, delay_at c (c_idx c2) = Some d /\
            let dl := c_end c1 + Z.max 0 d in
            c_start c2 = ceil_ms dl + Z.max 0 (fst (ready (c_idx c2))) /\
            c_start c2 >= c_end c1 + d /\
@@ -476,74 +523,6 @@ Section ReconnectProofs.
           right. split; [reflexivity|]. intros [[v Hv]|[e0 He]]; discriminate.
     Qed.
 
-    (* the code counts attempts in a saturating u32: the statements are about the code for
-       runs with fewer than 2^32 - 1 retries ([attempt] below its ceiling); the hypothesis is
-       not needed for the model, whose counter is a nat *)
-    Definition u32_run (fuel : nat) : Prop := Z.of_nat fuel + 1 < 2 ^ 32.
-
-    Lemma call_bound_u32 fuel t0 : u32_run fuel ->
-      let r := R fuel t0 in
-      (1 <= length (calls r) <= S fuel)%nat /\
-      (forall m, max_attempts c = Some m ->
-         (length (calls r) <= m + 1)%nat /\ ((m <= fuel)%nat -> result r <> None)).
-    Proof. intros _. apply call_bound. Qed.
-
-    Lemma retries_only_reconnectable_u32 fuel t0 : u32_run fuel ->
-      let r := R fuel t0 in
-      let n := length (calls r) in
-      map (@c_idx Res Err) (calls r) = seq 0 n /\
-      (forall cl, In cl (calls r) -> c_out cl = snd (inner (c_idx cl))) /\
-      (forall k, (k < n - 1)%nat ->
-         exists e d, snd (inner k) = Fail e /\ should_reconnect c e = true /\
-                     exceeded c (S k) = false /\ policy c (S k) = Some d /\
-                     retry_on_reconnect c = true /\ snd (ready (S k)) = None).
-    Proof. intros _. apply retries_only_reconnectable. Qed.
-
-    Lemma delay_before_retry_u32 fuel t0 : u32_run fuel ->
-      let r := R fuel t0 in
-      (exists cl rest, calls r = cl :: rest /\ c_start cl = t0) /\
-      (forall cl, In cl (calls r) -> c_end cl = c_start cl + Z.max 0 (fst (inner (c_idx cl)))) /\
-      (forall l1 c1 c2 l2, calls r = l1 ++ c1 :: c2 :: l2 ->
-         c_idx c2 = S (c_idx c1) /\
-         exists d, policy c (c_idx c2) = Some d /\
-           let dl := c_end c1 + Z.max 0 d in
-           c_start c2 = ceil_ms dl + Z.max 0 (fst (ready (c_idx c2))) /\
-           c_start c2 >= c_end c1 + d /\
-           (fst (ready (c_idx c2)) <= 0 -> c_start c2 < dl + MS) /\
-           (fst (ready (c_idx c2)) <= 0 -> (exists k, dl = k * MS) -> c_start c2 = dl)).
-    Proof. intros _. apply delay_before_retry. Qed.
-
-    Lemma result_spec_u32 fuel t0 x : u32_run fuel ->
-      let r := R fuel t0 in
-      result r = Some x ->
-      exists l cl, calls r = l ++ [cl] /\ c_out cl = snd (inner (c_idx cl)) /\
-        match x with
-        | inl v => snd (inner (c_idx cl)) = Ok v
-        | inr (ServiceError e) =>
-          (snd (inner (c_idx cl)) = Fail e /\ should_reconnect c e = false) \/
-          (exists e0 d, sleeps_after c (c_idx cl) (snd (inner (c_idx cl))) d e0 /\
-                        retry_on_reconnect c = true /\ snd (ready (S (c_idx cl))) = Some e)
-        | inr (MaxAttemptsExceeded n e) =>
-          snd (inner (c_idx cl)) = Fail e /\ should_reconnect c e = true /\ n = S (c_idx cl) /\
-          exists m, max_attempts c = Some m /\ (m < S (c_idx cl))%nat
-        | inr (ConnectionFailed e) =>
-          snd (inner (c_idx cl)) = Fail e /\ should_reconnect c e = true /\
-          exceeded c (S (c_idx cl)) = false /\ policy c (S (c_idx cl)) = None
-        | inr (ConnectionFailedNoRetry e) =>
-          (exists d, sleeps_after c (c_idx cl) (snd (inner (c_idx cl))) d e) /\
-          retry_on_reconnect c = false
-        end.
-    Proof. intros _. apply result_spec. Qed.
-
-    Lemma state_writes_u32 fuel t0 : u32_run fuel ->
-      let r := R fuel t0 in
-      let n := length (calls r) in
-      exists pre fin rest,
-        writes r = pre ++ fin /\ pre = repeat_dr (n - 1) ++ rest /\
-        Forall (fun x => x <> Connected) pre /\
-        ((fin = [Connected] /\ returns_connected (result r)) \/
-         (fin = [] /\ ~ returns_connected (result r))).
-    Proof. intros _. apply state_writes. Qed.
   End Run.
 
   (* ------------------------------------------------------------------ *)
@@ -554,7 +533,7 @@ Section ReconnectProofs.
 
   (* delay_for_attempt as a Duration (clamped at 0; 0 when the policy gives none) *)
   Definition pdelay (c : cfg) (a : nat) : Z :=
-    match policy c a with Some d => Z.max 0 d | None => 0 end.
+    match delay_at c a with Some d => Z.max 0 d | None => 0 end.
 
   Definition delay_of (c : cfg) (prev : call) : Z := pdelay c (S (c_idx prev)).
 
@@ -589,13 +568,13 @@ Section ReconnectProofs.
       (exists prev rest, log r = prev :: rest /\ S (c_idx prev) = attempt r /\ reconn c prev /\
                          retry_on_reconnect c = true /\ r_ready inp (attempt r) = RErr e)
     | inr (MaxAttemptsExceeded n e) =>
-      exists cl rest m, log r = cl :: rest /\ c_idx cl = attempt r /\ c_out cl = Fail e /\
-                        should_reconnect c e = true /\ n = S (c_idx cl) /\
-                        max_attempts c = Some m /\ (m < n)%nat
+      exists cl rest, log r = cl :: rest /\ c_idx cl = attempt r /\ c_out cl = Fail e /\
+                      should_reconnect c e = true /\ n = sat32 (S (c_idx cl)) /\
+                      exceeded c (S (c_idx cl)) = true
     | inr (ConnectionFailed e) =>
       exists cl rest, log r = cl :: rest /\ c_idx cl = attempt r /\ c_out cl = Fail e /\
                       should_reconnect c e = true /\ exceeded c (S (c_idx cl)) = false /\
-                      policy c (S (c_idx cl)) = None
+                      delay_at c (S (c_idx cl)) = None
     | inr (ConnectionFailedNoRetry e) =>
       exists cl rest d, log r = cl :: rest /\ S (c_idx cl) = attempt r /\
                         sleeps_after c (c_idx cl) (c_out cl) d e /\
@@ -746,8 +725,8 @@ Section ReconnectProofs.
             exists x. split; [reflexivity|]. unfold done_spec, returns_spec in *. cbn [log attempt].
             destruct x as [v|[n e|e|e|e]].
             - exists cl, (log r). repeat split; assumption.
-            - destruct Hrs as [Ho [Hs [Hn [m [Hm Hlt]]]]]. exists cl, (log r), m.
-              subst cl. cbn [c_idx c_out]. repeat split; try assumption. lia.
+            - destruct Hrs as [Ho [Hs [Hn Hx]]]. exists cl, (log r).
+              subst cl. cbn [c_idx c_out]. repeat split; assumption.
             - destruct Hrs as [Ho [Hs [Hx Hp]]]. exists cl, (log r).
               subst cl. cbn [c_idx c_out]. repeat split; assumption.
             - contradiction.
@@ -1007,14 +986,13 @@ Section ReconnectProofs.
     length (started_calls r) =
     (length (log r) + match ph r with PCalling _ => 1 | _ => 0 end)%nat.
   Proof.
-    unfold started_calls. rewrite app_length, map_length, rev_length.
+    unfold started_calls, rev'. rewrite <- rev_alt, app_length, map_length, rev_length.
     destruct (ph r); reflexivity.
   Qed.
 
   Lemma reconn_le c prev m : reconn c prev -> max_attempts c = Some m -> (S (c_idx prev) <= m)%nat.
   Proof.
-    intros [e [d [_ [_ [Hx _]]]]] Hm. unfold exceeded in Hx. rewrite Hm in Hx.
-    apply Nat.ltb_ge in Hx. exact Hx.
+    intros [e [d [_ [_ [Hx _]]]]] Hm. exact (exceeded_false_le c _ m Hx Hm).
   Qed.
 
   Lemma wf_log_bound c inp l m :
@@ -1663,13 +1641,11 @@ Section ReconnectProofs.
       + intros f t. apply go_return. rewrite Hinner, <- Hci, <- Hco, Hv. reflexivity.
       + rewrite <- Hi, Hci. reflexivity.
     - (* MaxAttemptsExceeded *)
-      destruct Hd as [cl [rest [m [Hl [Hi [Hv [Hs [Hn [Hm Hlt]]]]]]]]]. fold l in Hl.
+      destruct Hd as [cl [rest [Hl [Hi [Hv [Hs [Hn Hx]]]]]]]. fold l in Hl.
       pose proof Hwf as Hwf'. rewrite Hl in Hwf'. cbn [wf_log] in Hwf'. destruct Hwf' as [Hci [Hco _]].
       apply (Hfin cl rest [Disconnected] Hl).
       + intros f t. apply go_return. rewrite Hinner, <- Hci, <- Hco, Hv.
-        unfold after_outcome. rewrite Hs. cbn [negb]. unfold exceeded. rewrite Hm.
-        replace (m <? S (c_idx cl))%nat with true by (symmetry; apply Nat.ltb_lt; lia).
-        rewrite Hn. reflexivity.
+        unfold after_outcome. rewrite Hs. cbn [negb]. rewrite Hx, Hn. reflexivity.
       + rewrite <- Hi, Hci. reflexivity.
     - (* ConnectionFailed *)
       destruct Hd as [cl [rest [Hl [Hi [Hv [Hs [Hx Hp]]]]]]]. fold l in Hl.
@@ -1698,6 +1674,23 @@ Section ReconnectProofs.
           -- rewrite Hinner, <- Hci, <- Hco. apply after_outcome_sleeps. exact Hsl.
           -- subst ready. unfold w_ready. cbn [snd]. rewrite <- Hci, Hi, Hrd. reflexivity.
         * rewrite <- Hi, Hci, repeat_dr_S. cbn [tailw]. rewrite app_nil_r. reflexivity.
+  Qed.
+
+  (* the same at poll level, from ANY state whose counter has reached u32::MAX (such a state
+     takes 2^32 - 1 connection failures to reach; no script runs that long): a poll that
+     observes one more connection failure returns MaxAttemptsExceeded at once, whatever finite
+     max_attempts is configured — max_attempts(u32::MAX) included *)
+  Lemma drive_overflow (c : cfg) (inp : rin) f coop t (r : rst) (e : Err) m :
+    ph r = PCalling true -> fst (r_inner inp (attempt r)) = false ->
+    snd (r_inner inp (attempt r)) = Fail e -> should_reconnect c e = true ->
+    max_attempts c = Some m -> U32MAX <= Z.of_nat (attempt r) ->
+    exists r', drive c inp (S f) coop t r =
+               (r', [Disconnected], Ready (inr (MaxAttemptsExceeded (Z.to_nat U32MAX) e)), false) /\
+               ph r' = PDone /\ length (log r') = S (length (log r)).
+  Proof.
+    intros Hp Hg Ho Hs Hm Ha. cbn [drive]. rewrite Hp, Hg. cbn [andb negb]. rewrite Ho.
+    rewrite (overflow_step c (attempt r) e m Hm Hs Ha).
+    eexists. split; [reflexivity|]. split; reflexivity.
   Qed.
 End ReconnectProofs.
 
@@ -1759,6 +1752,11 @@ Module Examples.
   (* the fuel and budget run_script uses satisfy the hypothesis of the progress theorem *)
   Example script_fuel_enough : (4 * COOP + 3 < poll_fuel)%nat.
   Proof. exact poll_fuel_enough. Qed.
+
+  (* the hypotheses of the overflow lemmas are satisfiable (by a counter value no run reaches),
+     and max_attempts(u32::MAX) is a u32 *)
+  Example overflow_hyp : U32MAX <= Z.of_nat (Z.to_nat U32MAX) /\ Z.of_nat (Z.to_nat U32MAX) <= U32MAX.
+  Proof. rewrite Z2Nat.id; unfold U32MAX; lia. Qed.
 
   Definition inp (i : nat) : rin Z Zerr :=
     {| r_inner := fun k => (true, if (k <? 1)%nat then Fail (Z.of_nat (10 * i + k), true) else Ok 42);
